@@ -272,6 +272,11 @@ func RunCheck(prop, tier string) int {
 	nviol := 0
 	seen := map[string]bool{}
 	os.MkdirAll(filepath.Join(dir, "replays"), 0o755)
+	if old, _ := filepath.Glob(filepath.Join(dir, "replays", prop+"-*.json")); len(old) > 0 {
+		for _, f := range old {
+			os.Remove(f)
+		}
+	}
 	for _, v := range total.Violations {
 		if known.Match(v) != "" {
 			continue
